@@ -24,6 +24,10 @@ type AsmSpec struct {
 	Predefined  int          // simple font: 1, 2, 3 = use the predefined charset ISOAdobe, Expert, ExpertSubset (charset operand 0, 1, 2; no charset data); GlyphNames is ignored
 	TopExtra    []byte       // raw operand/operator bytes put at the start of the Top DICT (e.g. a FontMatrix in a chosen operand encoding)
 	FDExtra     [][]byte     // CID: raw bytes put at the start of the i-th Font DICT
+
+	// PrivateSize, if non-zero, is written as the size operand of every Private operator instead of the true
+	// size of the Private DICT (a hostile file: the declared size runs far past the end of the data).
+	PrivateSize int
 }
 
 // DictEntry encodes one DICT entry from operands and an operator; an operand given as int is written as a
@@ -255,6 +259,9 @@ func Assemble(spec *AsmSpec) []byte {
 	for _, p := range spec.Privates {
 		d, size := buildPrivate(p)
 		privData = append(privData, d)
+		if spec.PrivateSize != 0 {
+			size = spec.PrivateSize
+		}
 		privSize = append(privSize, size)
 	}
 
